@@ -1,7 +1,7 @@
 --------------------------- MODULE QLogFileAlgMC ---------------------------
 (***************************************************************************)
 (* C20, algorithm level, model-checking wrapper: enumerates every file of  *)
-(* at most MaxLines lines with content lengths MinLen..MaxLen (one more    *)
+(* at most MaxLines lines (0 lines = the empty file included) with content lengths MinLen..MaxLen (one more    *)
 (* byte each for the newline), runs every history of SeekStart / ReadNext  *)
 (* / seekTS(t) of QLogFileAlg on it for every target t (line i has         *)
 (* timestamp 2i, so odd targets are absent: before the first, between      *)
@@ -21,12 +21,12 @@
 (***************************************************************************)
 EXTENDS QLogFileAlg, Json
 
-CONSTANTS MaxLines, MinLen, MaxLen, SkipEmpty
+CONSTANTS MaxLines, MinLen, MaxLen
 
 VARIABLE st
 mvars == <<avars, st>>
 
-LenSeqs == UNION {[1..n -> MinLen..MaxLen] : n \in (IF SkipEmpty THEN 1 ELSE 0)..MaxLines}
+LenSeqs == UNION {[1..n -> MinLen..MaxLen] : n \in 0..MaxLines}    \* the file of 0 bytes included
 
 RECURSIVE EndsOf(_)
 EndsOf(ls) == IF ls = <<>> THEN <<>>
